@@ -164,6 +164,81 @@ func cmdSelftest(args []string) int {
 		// feasible: empty input → 1 without bump; short reply → 1 with bump; ok → 0 with bump. Never 0 without bump, never more.
 		check(outcomes["ret=1 bumped=false"] == 1 && outcomes["ret=1 bumped=true"] == 1 && outcomes["ret=0 bumped=true"] == 1 && len(outcomes) == 3, fmt.Sprintf("path-sensitive enumeration through spliced helpers: %v", outcomes))
 	}
+	// deferred literal over a named result: spliced at the exits, it counts exactly the error paths
+	if dc := c.Method("", "conn", "DeferCount"); dc == nil {
+		check(false, "fixture DeferCount missing")
+	} else {
+		good, n := true, 0
+		enumPaths(dc, 1, 1000, func(p CPath) {
+			if _, ok := p.Last().(*ssa.Return); !ok {
+				return
+			}
+			n++
+			counted := false
+			for _, in := range p.Instrs() {
+				if st, ok := in.(*ssa.Store); ok {
+					if g, isG := st.Addr.(*ssa.Global); isG && g.Name() == "failures" {
+						counted = true
+					}
+				}
+			}
+			out := c.errOutcome(dc, p)
+			if out < 0 || counted != (out == 1) {
+				good = false
+			}
+		})
+		check(good && n >= 3, fmt.Sprintf("deferred literal spliced at exits, named result resolved (%d paths, consistent=%v)", n, good))
+	}
+	// interface call resolved through a helper's parameter; promoted/forwarding methods spliced
+	if dv := c.Method("", "conn", "Devirt"); dv == nil {
+		check(false, "fixture Devirt missing")
+	} else {
+		names := map[string]bool{}
+		for _, f := range flatOf(dv).Funcs() {
+			names[f.Name()] = true
+		}
+		check(names["runExchange"] && names["exchange"] && names["peer"] && names["step"], fmt.Sprintf("interface calls devirtualised through the splice chain (view: %v)", names))
+	}
+	// a function value that can only be one literal
+	if fa := c.Func("", "Factory"); fa == nil {
+		check(false, "fixture Factory missing")
+	} else {
+		names := map[string]bool{}
+		for _, f := range flatOf(fa).Funcs() {
+			names[f.Name()] = true
+		}
+		check(names["newCounter"] && names["newCounter$1"], fmt.Sprintf("call of a function value with one possible literal is spliced (view: %v)", names))
+	}
+	// values at a point of a path: the n-th request carries index n in both spellings, not in the bad one
+	for _, tc := range []struct {
+		fn   string
+		want bool
+	}{{"PagesVar", true}, {"PagesField", true}, {"PagesBad", false}} {
+		fn := c.Func("", tc.fn)
+		if fn == nil {
+			check(false, "fixture "+tc.fn+" missing")
+			continue
+		}
+		ok, seen := true, 0
+		enumPaths(fn, 3, 10000, func(p CPath) {
+			occs := p.OccsPos()
+			n := 0
+			for i, oc := range occs {
+				call, isCall := oc.In.(*ssa.Call)
+				if !isCall || call.Call.StaticCallee() == nil || call.Call.StaticCallee().Name() != "Opaque" {
+					continue
+				}
+				root := p.Upto(oc.Seg).APIn(oc.Ctx, call.Call.Args[0]).Root
+				v := p.fieldAt(occs, i, root, "Index")
+				if !v.IsK || v.K != int64(n) {
+					ok = false
+				}
+				n++
+				seen++
+			}
+		})
+		check(ok == tc.want && seen > 0, fmt.Sprintf("values along a path: %s requests indices 0,1,2 = %v (want %v)", tc.fn, ok, tc.want))
+	}
 	// loop runs: three spellings of "bytes 0..N-1 are 1,2,…,N then byte N is N", one that stops short, one stale read
 	for _, tc := range []struct {
 		m    string
@@ -220,6 +295,6 @@ func cmdSelftest(args []string) int {
 		fmt.Printf("selftest: %d failure(s)\n", fails)
 		return 1
 	}
-	fmt.Println("selftest: ok (linear core, bit vectors, lenflow good/bad fixtures, predicates, bit provenance, global taint, flattened view, loop runs, stale reads)")
+	fmt.Println("selftest: ok (linear core, bit vectors, lenflow good/bad fixtures, predicates, bit provenance, global taint, flattened view, deferred literals, devirtualisation, function values, values along paths, loop runs, stale reads)")
 	return 0
 }
